@@ -196,6 +196,11 @@ def check_case(ck, paths_small, paths_big, case, idx):
     writes = [(k, p) for k, p in outs.items() if not (case["spaces"] and k != "fasta")]
     script = kal.lib_script(f, kal.TYPES[word], gpo if gpo is not None else -1, gpe if gpe is not None else -1,
                             tgpe if tgpe is not None else -1, nt, dump=True, writes=writes)
+    if rng.random() < 0.3:
+        # a write that fails (device full) before the real ones must not leave anything behind in later files
+        k_ = next(i for i, l in enumerate(script) if l.startswith("write "))
+        script.insert(k_, "write 0 %s /dev/full" % rng.choice(["msf", "clu", "fasta"]))
+        ck.count("cases_with_a_failed_write_before_the_real_ones")
     r, lrecs = common.kvdrv(paths, script, scratch=ck.scratch, timeout=900, cpu=600)
     ctx = dict(ctxbase, input=recs if len(recs) < 400 else "(large)", nthreads=nt, script=script)
     if not ck.proc_violations(r, ctx, allow_rcs=(0,)):
